@@ -20,6 +20,13 @@ Streams
               external oracle whose result is only CHECKED for the promised structure (label: check, not proof)
   guard       argument tuples at and around the boundaries: ValueError verdict of obtain_* against the model guard
   malformed   non-integer tokens, wrong arity, unknown / repeated options, missing save information: ValueError expected
+Run first, as a corpus (notes/LARGE_STREAMS.md):
+  huge        more than 65536 / 131072 vertices or edges (direct calls and command line specifications with 'save' in every
+              in-house format): the model replays draws in quadratic time, so only the promised structure is checked
+  thresholds  sizes, degrees, edge counts, option arguments at 15..1025 and at the sparse / dense switches; model demanded
+  shapes      CompleteBipartiteGraph under every option and 'save', vertices of large degree, one-vertex sides, complete and
+              empty results, repeated / wrapping shift offsets
+  history     one graph object taken through a random sequence of options and API edits; each option judged on the state it found
 """
 import collections.abc
 import itertools
@@ -405,6 +412,7 @@ class Case:
         self.old_cls = old_cls        # class of the repaired finding the as-found variant stands for
         self.extra = extra or {}
         self.prop_draws = None        # (canon, recorded integer draws) -> None | description
+        self.nomodel = False          # large instance: the model is quadratic in the number of edges; the structure check alone is run
 
 
 class Runner:
@@ -415,15 +423,18 @@ class Runner:
     def run(self, case, seed=None, bias=0.0, script=None):
         ctx = self.ctx
         seed = ctx.rng.getrandbits(48) if seed is None else seed
-        rec = Rec(seed, bias=bias, script=script)
+        rec = Rec(seed, bias=bias, script=script, limit=6000 if not case.nomodel else 0)
         res = with_random(rec, case.call)
         if res[0] == 'ok':
             val = res[1]
             got = ('ok',) + (tuple(val) if isinstance(val, tuple) else (val,))
         else:
             got = res
-        inp = dict(call=case.name, args=case.args, seed=seed, bias=bias, draws=[d if not isinstance(d, tuple) else ['f', d[1]] for d in rec.draws])
-        inp.update(case.extra)
+        inp = dict(call=case.name, args=case.args, seed=seed, bias=bias,
+                   draws=[d if not isinstance(d, tuple) else ['f', d[1]] for d in (rec.draws if len(rec.draws) <= 4000 else rec.draws[:200])])
+        if len(rec.draws) > 4000:
+            inp['number_of_draws'] = len(rec.draws)       # replay by seed and bias: the recorder is deterministic
+        inp.update({k: (v if not (isinstance(v, list) and len(str(v)) > 20000) else str(v)[:2000] + ' ...') for k, v in case.extra.items()})
         key = (case.name, str(case.args), str(rec.draws[:60]), len(rec.draws))
         nontrivial = got[0] != 'ok' or got[1][1] + got[1][2] > 0
         ctx.count(case.stream, key, nontrivial, sample=dict(call=case.name, args=case.args, draws=len(rec.draws),
@@ -446,10 +457,15 @@ class Runner:
                 ctx.disagreements_checked += 1
                 flagged = True
                 w, cls = why if isinstance(why, tuple) else (why, 'structure')
+                shown = [list(x) if isinstance(x, (list, tuple)) else x for x in got]
+                if len(str(shown)) > 20000:
+                    shown = [str(x)[:3000] + ' ...' for x in shown]
                 ctx.violation('counterexample', '%s%r returned a graph without the promised structure: %s' % (case.name, tuple(case.args), w),
-                              dict(input=inp, implementation=[list(x) if isinstance(x, (list, tuple)) else x for x in got]), True,
-                              site=case.site, cls=cls)
+                              dict(input=inp, implementation=shown), True, site=case.site, cls=cls)
         # 2. queue the replay of the draws in the model
+        if case.nomodel:
+            ctx.tally(case.stream + ' checked', 'structure check only (large instance)')
+            return got, rec
         if rec.unmodelled:
             ctx.violation('correspondence', 'the implementation used random.%s, which the model does not know' % rec.unmodelled[0],
                           dict(input=inp), False, site=case.site, cls='unmodelled-draw')
@@ -997,6 +1013,7 @@ class CliRunner:
         self.ctx, self.G, self.A, self.tmp = ctx, G, A, tmp
         self.pending = []     # (inp, label, got, requests, compare)
         self.nsave = 0
+        self.nomodel = False
 
     def viol(self, kind, what, inp, found, site, cls, **more):
         self.ctx.disagreements_checked += 1
@@ -1007,17 +1024,22 @@ class CliRunner:
     def queue(self, inp, label, got, reqs, compare=agrees, old=None):
         """reqs[0]: the model of the CURRENT code (demanded); reqs[1:]: the model of the code as found; old = (site, class) of the
         repaired finding it stands for"""
+        if self.nomodel:
+            return            # large instance: the model is quadratic in the number of edges; structure checks only
         self.pending.append((inp, label, got, reqs, compare, old))
 
-    def run(self, ty, tokens, seed=None, bias=0.0, stream='cli', script=None):
+    def run(self, ty, tokens, seed=None, bias=0.0, stream='cli', script=None, nomodel=False):
         ctx, A, G = self.ctx, self.A, self.G
+        self.nomodel = nomodel
         seed = ctx.rng.getrandbits(48) if seed is None else seed
-        rec = Rec(seed, bias=bias, script=script)
+        rec = Rec(seed, bias=bias, script=script, limit=0 if nomodel else 6000)
         stages = []
         with Instrument(A, rec, stages):
             res = with_random(rec, lambda: A.make_graph_from_spec(ty, list(tokens)))
-        draws = [d if not isinstance(d, tuple) else ['f', d[1]] for d in rec.draws]
+        draws = [d if not isinstance(d, tuple) else ['f', d[1]] for d in (rec.draws if len(rec.draws) <= 4000 else rec.draws[:200])]
         inp = dict(graph_type=ty, spec=list(tokens), seed=seed, bias=bias, draws=draws)
+        if len(rec.draws) > 4000:
+            inp['number_of_draws'] = len(rec.draws)
         ctx.count(stream, (ty, tuple(tokens), str(draws[:40]), len(draws)), True,
                   sample=dict(graph_type=ty, spec=' '.join(tokens), outcome=res[1] if res[0] == 'exc' else 'graph'))
         try:
@@ -1093,7 +1115,8 @@ class CliRunner:
             if why:
                 w, cls = why if isinstance(why, tuple) else (why, 'structure')
                 self.viol('counterexample', 'CHECK: %r (%s) returned a graph without the promised structure: %s' % (' '.join(tokens), ty, w),
-                          inp, True, 'grid-torus' if gname in ('grid', 'torus') else gname, cls, base_graph=base)
+                          inp, True, 'grid-torus' if gname in ('grid', 'torus') else gname, cls,
+                          base_graph=base if len(base[3]) <= 2000 else base[:3] + ['%d edges' % len(base[3])])
         bits_stream = None
         if gname in INHOUSE or (gname == 'complete-simple' and len(ints) == 1):
             st = int_stream(rec.draws[:ibase])
@@ -1126,7 +1149,8 @@ class CliRunner:
                 why = judge_modify(lab, prev[1], stg[1], optargs[lab], seg)
                 if why:
                     self.viol('counterexample', 'option %s %r of %r did not do what it names: %s' % (lab, optargs[lab], ' '.join(tokens), why),
-                              inp, True, lab, 'structure', before=prev[1], after=stg[1])
+                              inp, True, lab, 'structure', before=prev[1] if len(prev[1][3]) <= 2000 else prev[1][:3] + ['%d edges' % len(prev[1][3])],
+                              after=stg[1] if len(stg[1][3]) <= 2000 else stg[1][:3] + ['%d edges' % len(stg[1][3])])
             prev = stg
         if nonint_opt:
             if not (res[0] == 'exc' and res[1] == 'ValueError'):
@@ -1405,15 +1429,396 @@ def run_cli(ctx, G, A, quick):
         os.rmdir(tmp)
 
 
+# --------------------------------------------------------------------------
+# thresholds / huge / shapes / history (notes/LARGE_STREAMS.md)
+# The model replays the draws in time quadratic in the number of edges: it is demanded up to a few thousand edges
+# (thresholds, shapes, history); beyond that (huge) the structure promised by the construction is checked directly on the
+# graph the implementation returns -- chk_* are the statement of C15 itself and run in linear time.
+# --------------------------------------------------------------------------
+THRESHOLDS = [15, 16, 17, 63, 64, 65, 127, 128, 129, 255, 256, 257, 258, 300, 1000, 1025]
+
+
+def path_graph(n, extra=()):
+    return ['simple', n, 0, sorted([[u, u + 1] for u in range(1, n)] + [list(e) for e in extra])]
+
+
+def threshold_cases(G, B, quick):
+    """direct calls at the threshold values; every graph stays below a few thousand edges"""
+    out = []
+    T = THRESHOLDS
+    # bipartite_random_m_edges: m at the thresholds and at the sparse / dense switch L*R//3
+    for (L, Rr) in [(16, 17), (255, 3), (256, 257), (1, 1025), (1025, 1)]:
+        sw = L * Rr // 3
+        ms = sorted({m for m in T + [sw - 1, sw, sw + 1, L * Rr - 1, L * Rr, L * Rr + 1] if 0 <= m <= L * Rr + 1 and m <= 1100})
+        for m in ms:
+            out.append(case_m_edges(G, L, Rr, m, 'thresholds'))
+    # left regular: a left side, a right side, a degree at the thresholds
+    for (l, r, d) in [(257, 17, 3), (17, 257, 16), (17, 257, 255), (17, 257, 256), (17, 257, 257), (3, 1025, 1000), (3, 1025, 1025), (256, 8, 2), (1025, 2, 1),
+                      (16, 17, 16), (16, 17, 17), (1, 300, 258)]:
+        out.append(case_left_regular(G, l, r, d, 'thresholds'))
+    for (l, r, d) in [(256, 256, 2), (257, 257, 1), (64, 16, 4), (255, 17, 1), (16, 16, 15), (17, 17, 16), (65, 13, 5), (300, 100, 1)] + ([] if quick else [(128, 64, 16), (1025, 5, 1)]):
+        out.append(case_regular(G, l, r, d, 'thresholds'))
+    for (N, M, pat) in [(257, 256, [0, 255, 256]), (256, 257, [256, 0]), (1025, 17, [16, 1]), (16, 1025, [1024, 0, 257]), (17, 16, [15, 16, 17]), (300, 300, [299, 258, 1]),
+                        (64, 65, [64, 63, 0])]:
+        out.append(case_shift(G, N, M, pat, 'thresholds'))
+    for (a, b) in [(16, 17), (15, 17), (63, 65), (1, 1025), (257, 3), (0, 257), (256, 0)]:
+        out.append(case_fixed(G, 'complete-bipartite', (a, b), 'thresholds'))
+        out.append(case_fixed(G, 'empty-bipartite', (a * 4, b * 4), 'thresholds'))
+    for n in [15, 16, 17, 63, 64, 65]:
+        out.append(case_fixed(G, 'complete-simple', (n,), 'thresholds'))
+    for n in T:
+        out.append(case_fixed(G, 'empty-simple', (n,), 'thresholds'))
+        out.append(case_fixed(G, 'dag-path', (n,), 'thresholds'))
+    for h in [3, 4, 5, 6, 7, 8, 9] + ([] if quick else [10]):
+        out.append(case_fixed(G, 'dag-tree', (h,), 'thresholds'))
+    for h in [15, 16, 17, 22] + ([] if quick else [44]):
+        out.append(case_fixed(G, 'dag-pyramid', (h,), 'thresholds'))
+    # options: the size of the planted clique, the number of added / subdivided edges
+    base = path_graph(300, [(1, 300), (2, 299), (5, 200)])
+    for k in [15, 16, 17, 63, 64, 65]:
+        out.append(case_modify(G, B, 'plantclique', base, [k], 'thresholds'))
+    for k in T:
+        out.append(case_modify(G, B, 'addedges', base, [k], 'thresholds'))
+        if k <= 302:
+            out.append(case_modify(G, B, 'splitedges', base, [k], 'thresholds'))
+    out.append(case_modify(G, B, 'splitedges', base, [303], 'thresholds'))
+    bb = ['bipartite', 70, 300, sorted([[1 + i % 70, 1 + (i * 7) % 300] for i in range(600)])]
+    bb[3] = [list(e) for e in sorted(set(map(tuple, bb[3])))]
+    for (a, b) in [(16, 17), (15, 16), (1, 257), (71, 1), (17, 256)] + ([] if quick else [(63, 65), (70, 300)]):
+        out.append(case_modify(G, B, 'plantbiclique', bb, [a, b], 'thresholds'))
+    for k in T:
+        out.append(case_modify(G, B, 'addedges', bb, [k], 'thresholds'))
+    return out
+
+
+def threshold_specs():
+    """the same through the command line parser"""
+    out = []
+
+    def add(ty, *toks):
+        out.append((ty, [str(t) for t in toks]))
+    for m in (90, 91, 255, 256, 257, 272, 273):
+        add('bipartite', 'glrm', 16, 17, m)
+    for m in (256, 257, 1025):
+        add('bipartite', 'glrm', 256, 257, m)
+    for (l, r, d) in [(257, 17, 3), (9, 257, 256), (9, 257, 257), (9, 257, 258), (3, 1025, 1025)]:
+        add('bipartite', 'glrd', l, r, d)
+    for (l, r, d) in [(256, 256, 2), (257, 257, 1), (64, 16, 4), (257, 16, 1), (16, 257, 16)]:
+        add('bipartite', 'regular', l, r, d)
+    add('bipartite', 'shift', 257, 256, 0, 255, 256)
+    add('bipartite', 'shift', 256, 257, 0, 256)
+    add('bipartite', 'shift', 17, 16, 15, 16)
+    for (a, b) in [(16, 17), (63, 65), (257, 3)]:
+        add('bipartite', 'complete', a, b)
+        add('bipartite', 'empty', a, b)
+        add('bipartite', 'glrp', a, b, '.01')
+    for n in (16, 17, 64, 65):
+        if n < 65:
+            add('simple', 'complete', n)
+        add('simple', 'gnp', n, '.2')
+        add('simple', 'gnm', n, n * 2)
+        add('simple', 'gnd', n, 3 if n % 2 == 0 else 4)
+    for n in (256, 257, 1025):
+        add('simple', 'empty', n)
+        add('simple', 'gnm', n, 257)
+        add('simple', 'gnd', n + n % 2, 3)
+        add('dag', 'path', n)
+        add('digraph', 'path', n)
+    add('simple', 'grid', 16, 17)
+    add('simple', 'torus', 17, 16)
+    add('simple', 'grid', 257)
+    add('simple', 'torus', 257)
+    add('simple', 'complete', 4, 17)
+    add('simple', 'gnp', 17, '.1', 16)
+    for h in (4, 7, 8, 9):
+        add('dag', 'tree', h)
+    for h in (15, 16, 17, 22):
+        add('dag', 'pyramid', h)
+    return out
+
+
+def threshold_options(rng, ty, toks):
+    """options whose arguments sit at the thresholds (when the graph is large enough)"""
+    n = order_of(ty, toks)
+    opts = []
+    if ty == 'simple':
+        n = n if isinstance(n, int) else 6
+        if rng.random() < 0.5:
+            opts.append(['plantclique', str(rng.choice([k for k in (15, 16, 17, 63, 64, 65) if k <= n + 1] or [n]))])
+        if rng.random() < 0.6:
+            opts.append(['addedges', str(rng.choice([15, 16, 17, 255, 256, 257, 258]))])
+        if rng.random() < 0.5:
+            opts.append(['splitedges', str(rng.choice([15, 16, 17, 255, 256, 257]))])
+    elif ty == 'bipartite':
+        L, Rr = n if isinstance(n, tuple) else (3, 3)
+        if rng.random() < 0.5:
+            opts.append(['plantbiclique', str(rng.choice([k for k in (1, 15, 16, 17) if k <= L + 1])), str(rng.choice([k for k in (1, 15, 16, 17, 256, 257) if k <= Rr + 1]))])
+        if rng.random() < 0.6:
+            opts.append(['addedges', str(rng.choice([15, 16, 17, 255, 256, 257]))])
+    rng.shuffle(opts)
+    return toks + [t for o in opts for t in o]
+
+
+def huge_cases(G, B, quick):
+    """more than 65536 / 131072 vertices or edges: structure check only"""
+    out = []
+
+    def add(c):
+        c.nomodel = True
+        out.append(c)
+    add(case_m_edges(G, 300, 300, 66000, 'huge'))           # dense branch, > 65536 edges
+    add(case_m_edges(G, 300, 300, 29999, 'huge'))           # sparse branch just below the switch
+    add(case_left_regular(G, 70000, 3, 2, 'huge'))          # > 65536 left vertices, > 131072 edges
+    add(case_left_regular(G, 3, 70000, 30000, 'huge'))      # degree 30000
+    add(case_regular(G, 66000, 3, 1, 'huge'))
+    if not quick:
+        add(case_shift(G, 70000, 70001, [0, 65536, 70000], 'huge'))
+    add(case_shift(G, 66000, 5, [0, 4], 'huge'))
+    add(case_fixed(G, 'complete-bipartite', (257, 257), 'huge'))
+    add(case_fixed(G, 'dag-path', (140000,), 'huge'))
+    add(case_fixed(G, 'dag-tree', (16,), 'huge'))           # 131071 vertices
+    add(case_fixed(G, 'dag-pyramid', (361,), 'huge'))       # 65703 vertices, 130320 edges
+    big = ['simple', 400, 0, [[u, v] for u in range(1, 401) for v in range(u + 1, 401)]]      # 79800 edges
+    add(case_modify(G, B, 'splitedges', big, [66000], 'huge'))
+    if not quick:
+        add(case_modify(G, B, 'addedges', ['simple', 400, 0, []], [70000], 'huge'))
+    add(case_modify(G, B, 'plantclique', path_graph(70000), [300], 'huge'))
+    add(case_modify(G, B, 'plantbiclique', ['bipartite', 300, 300, []], [257, 257], 'huge'))
+    if not quick:
+        add(case_m_edges(G, 400, 400, 140000, 'huge'))
+        add(case_m_edges(G, 400, 400, 53333, 'huge'))
+        add(case_m_edges(G, 400, 400, 53334, 'huge'))
+        add(case_m_edges(G, 70000, 2, 140000, 'huge'))
+        add(case_left_regular(G, 140000, 5, 1, 'huge'))
+        add(case_regular(G, 300, 300, 100, 'huge'))
+        add(case_regular(G, 131072, 2, 1, 'huge'))
+        add(case_shift(G, 140000, 3, [0, 2], 'huge'))
+        add(case_fixed(G, 'complete-simple', (400,), 'huge'))
+        add(case_fixed(G, 'complete-bipartite', (70000, 2), 'huge'))
+        add(case_fixed(G, 'dag-tree', (17,), 'huge'))
+        add(case_fixed(G, 'dag-pyramid', (520,), 'huge'))
+        add(case_fixed(G, 'empty-simple', (140000,), 'huge'))
+        add(case_modify(G, B, 'addedges', big, [0], 'huge'))
+        add(case_modify(G, B, 'addedges', big, [1], 'huge'))
+        add(case_modify(G, B, 'splitedges', big, [79800], 'huge'))
+        add(case_modify(G, B, 'addedges', ['bipartite', 300, 300, []], [66000], 'huge'))
+    return out
+
+
+# 'save' in every in-house format of every graph type at these sizes
+HUGE_SPECS = [('bipartite', ['glrm', '300', '300', '66000', 'save', 'kthlist']), ('bipartite', ['glrd', '70000', '3', '2']), ('dag', ['tree', '16', 'save', 'kthlist']),
+              ('digraph', ['pyramid', '361', 'save', 'dimacs']), ('simple', ['complete', '400', 'splitedges', '66000', 'save', 'kthlist']),
+              ('bipartite', ['complete', '257', '257', 'save', 'kthlist']), ('simple', ['complete', '16', '17', 'save', 'dimacs']),
+              ('bipartite', ['glrd', '3', '30000', '20000', 'save', 'matrix'])]
+HUGE_SPECS_THOROUGH = [('simple', ['gnm', '70000', '140000', 'save', 'kthlist']), ('simple', ['gnd', '70000', '3']), ('simple', ['grid', '257', '257']), ('bipartite', ['regular', '66000', '3', '1']), ('bipartite', ['shift', '70000', '70001', '0', '65536', '70000', 'save', 'kthlist']),
+                       ('simple', ['torus', '300', '300']), ('simple', ['gnp', '3000', '.02', 'plantclique', '257']), ('digraph', ['path', '140000', 'save', 'kthlist']),
+                       ('bipartite', ['glrp', '300', '300', '.8', 'plantbiclique', '257', '257']), ('simple', ['empty', '400', 'addedges', '70000', 'save', 'dimacs']),
+                       ('bipartite', ['complete', '300', '300', 'save', 'matrix']), ('simple', ['complete', '20', '20']), ('bipartite', ['glrm', '70000', '2', '140000'])]
+
+SHAPE_SPECS = [
+    # a CompleteBipartiteGraph object (it overrides the edge views and never fills its edge set) under every option and 'save'
+    ('bipartite', ['complete', '3', '2', 'addedges', '0']), ('bipartite', ['complete', '3', '2', 'addedges', '1']), ('bipartite', ['complete', '3', '2', 'plantbiclique', '2', '2']),
+    ('bipartite', ['complete', '3', '2', 'plantbiclique', '3', '2', 'addedges', '0']), ('bipartite', ['complete', '16', '17', 'plantbiclique', '16', '17']),
+    ('bipartite', ['complete', '3', '2', 'save', 'matrix']), ('bipartite', ['complete', '3', '2', 'save', 'kthlist']), ('bipartite', ['complete', '3', '2', 'save', 'gml']),
+    ('bipartite', ['complete', '17', '16', 'save', 'matrix']), ('bipartite', ['complete', '0', '3', 'save', 'matrix']), ('bipartite', ['complete', '3', '0', 'save', 'kthlist']),
+    ('bipartite', ['complete', '1', '1', 'plantbiclique', '1', '1', 'save', 'matrix']),
+    # a vertex of large degree, an empty or a one-vertex side, complete / empty results of the samplers
+    ('bipartite', ['glrd', '1', '300', '300']), ('bipartite', ['glrd', '300', '1', '1']), ('bipartite', ['glrd', '5', '40', '40', 'save', 'matrix']),
+    ('bipartite', ['glrd', '5', '40', '0', 'addedges', '200']), ('bipartite', ['regular', '40', '1', '1']), ('bipartite', ['regular', '1', '40', '40']),
+    ('bipartite', ['regular', '12', '12', '12']), ('bipartite', ['regular', '12', '12', '0', 'plantbiclique', '12', '12']),
+    ('bipartite', ['glrm', '1', '300', '300']), ('bipartite', ['glrm', '300', '1', '0']), ('bipartite', ['glrm', '7', '9', '63', 'addedges', '0']),
+    ('bipartite', ['glrm', '7', '9', '63', 'addedges', '1']), ('bipartite', ['glrp', '1', '300', '1']), ('bipartite', ['glrp', '300', '1', '0']),
+    ('bipartite', ['shift', '5', '7', '2', '2']), ('bipartite', ['shift', '5', '7', '7', '0']), ('bipartite', ['shift', '5', '7', '8']), ('bipartite', ['shift', '5', '7', '6', '3', '0']),
+    ('bipartite', ['shift', '40', '1', '0']), ('bipartite', ['shift', '1', '40'] + [str(i) for i in range(40)]),
+    ('simple', ['complete', '12', 'addedges', '0']), ('simple', ['complete', '12', 'addedges', '1']), ('simple', ['complete', '12', 'plantclique', '12']),
+    ('simple', ['complete', '12', 'splitedges', '66']), ('simple', ['complete', '12', 'splitedges', '67']), ('simple', ['empty', '12', 'splitedges', '0']),
+    ('simple', ['empty', '12', 'splitedges', '1']), ('simple', ['empty', '12', 'addedges', '66']), ('simple', ['empty', '12', 'addedges', '67']),
+    ('simple', ['empty', '12', 'plantclique', '12', 'splitedges', '66']), ('simple', ['empty', '1', 'plantclique', '1']), ('simple', ['empty', '0', 'plantclique', '0']),
+    ('simple', ['gnd', '40', '39']), ('simple', ['gnd', '40', '0', 'addedges', '17']), ('simple', ['gnm', '40', '780']), ('simple', ['gnp', '40', '1', 'splitedges', '17']),
+    ('simple', ['complete', '1', '17']), ('simple', ['complete', '17', '1']), ('simple', ['gnp', '1', '.5', '17']), ('simple', ['grid', '1', '1', '17']),
+    ('simple', ['torus', '2', '17']), ('simple', ['torus', '3', '2', '2']),
+    ('dag', ['tree', '0', 'save', 'kthlist']), ('dag', ['pyramid', '0', 'save', 'dimacs']), ('dag', ['path', '0', 'save', 'gml']), ('digraph', ['tree', '5', 'save', 'dimacs']),
+]
+
+
+def direct_spec(ctx, G, A, ty, tokens, tmp, stream='huge-cli'):
+    """a large specification through the real parser: promised structure (check_base / judge_modify through the stages) and 'save'"""
+    C = CliRunner(ctx, G, A, tmp)
+    toks = list(tokens)
+    if 'save' in toks:
+        fmt = toks[toks.index('save') + 1]
+        toks.insert(toks.index('save') + 2, os.path.join(tmp, 'huge.' + fmt))
+    return C.run(ty, toks, stream=stream, nomodel=True)
+
+
+def run_large(ctx, R, G, B, A, quick):
+    import time
+    rng = ctx.rng
+    # ---- huge first (structure checks only)
+    t0 = time.time()
+    for c in huge_cases(G, B, quick):
+        ctx.tally('huge call', c.name)
+        R.run(c)
+    tmp = tempfile.mkdtemp(prefix='c15huge-')
+    try:
+        for (ty, toks) in HUGE_SPECS + ([] if quick else HUGE_SPECS_THOROUGH):
+            direct_spec(ctx, G, A, ty, toks, tmp)
+            for f in os.listdir(tmp):
+                os.unlink(os.path.join(tmp, f))
+    finally:
+        for f in os.listdir(tmp):
+            os.unlink(os.path.join(tmp, f))
+        os.rmdir(tmp)
+    ctx.note('huge: %.0f s' % (time.time() - t0))
+    # ---- thresholds (model demanded)
+    t0 = time.time()
+    for c in threshold_cases(G, B, quick):
+        ctx.tally('thresholds call', c.name)
+        for _ in range(1 if quick else 4):
+            R.run(c, bias=rng.choice([0, 0, 0.5]))
+    R.flush()
+    tmp = tempfile.mkdtemp(prefix='c15thr-')
+    C = CliRunner(ctx, G, A, tmp)
+    counter = [0]
+    try:
+        for (ty, toks) in threshold_specs():
+            C.run(ty, toks, stream='thresholds-cli', bias=rng.choice([0, 0, 0.5]))
+            for _ in range(1 if quick else 4):
+                C.run(ty, threshold_options(rng, ty, toks), stream='thresholds-cli', bias=rng.choice([0, 0.5]))
+        C.flush()
+        ctx.note('thresholds: %.0f s' % (time.time() - t0))
+        # ---- shapes
+        t0 = time.time()
+        for (ty, toks) in SHAPE_SPECS:
+            toks = list(toks)
+            if 'save' in toks:
+                counter[0] += 1
+                fmt = toks[toks.index('save') + 1]
+                toks.insert(toks.index('save') + 2, os.path.join(tmp, 's%d.%s' % (counter[0], fmt)))
+            for _ in range(1 if quick else 5):
+                C.run(ty, toks, stream='shapes', bias=rng.choice([0, 0.5, 0.9]))
+        C.flush()
+        ctx.note('shapes: %.0f s' % (time.time() - t0))
+    finally:
+        for f in os.listdir(tmp):
+            os.unlink(os.path.join(tmp, f))
+        os.rmdir(tmp)
+    t0 = time.time()
+    run_history(ctx, R, G, B, A, quick)
+    ctx.note('history: %.0f s' % (time.time() - t0))
+
+
+# --------------------------------------------------------------------------
+# history: ONE graph object taken through a random sequence of options and of edits through its public API; every option
+# is judged on the state it found (the draws it consumed are replayed in the model on that state)
+# --------------------------------------------------------------------------
+def case_modify_live(G, B, what, state, args, stream='history'):
+    toks = [str(a) for a in args]
+    holder = {}
+
+    def call():
+        g = state['g']
+        holder['before'] = canon(g)
+        if what == 'plantclique':
+            B.modify_simple_graph_plantclique({'plantclique': toks}, g)
+        elif what == 'plantbiclique':
+            B.modify_bipartite_graph_plantbiclique({'plantbiclique': toks}, g)
+        elif what == 'addedges':
+            B.modify_graph_addedges({'addedges': toks}, g)
+        else:
+            r = B.modify_graph_splitedges({'splitedges': toks}, g)
+            if r is not None and r is not g:
+                state['g'] = g = r
+        after = canon(g)
+        if not consistent_object(g, after):
+            raise AssertionError('graph object inconsistent with its edge list')
+        return after
+
+    def variants(s):
+        o = dict(plant=None, add=None, split=None)
+        o[{'plantclique': 'plant', 'plantbiclique': 'plant', 'addedges': 'add', 'splitedges': 'split'}[what]] = list(args)
+        return [cmd('gg_modify', opt(o['plant']), opt(o['add']), opt(o['split']), sx_graph(holder['before']), s)]
+    c = Case(stream, what, ['the graph left by the previous steps'] + list(args), call, variants, site=what, reachable=True,
+             extra=dict(option=what, option_args=list(args), history=list(state['log'])))
+    c.prop_draws = lambda after, draws: judge_modify(what, holder['before'], after, list(args), draws)
+    return c, holder
+
+
+def run_history(ctx, R, G, B, A, quick):
+    rng = ctx.rng
+    for run_no in range(25 if quick else 400):
+        bip = run_no % 3 == 2
+        if bip:
+            L, Rr = rng.choice([1, 3, 6]), rng.choice([1, 4, 7])
+            g = G.BipartiteGraph(L, Rr) if rng.random() < 0.8 else G.CompleteBipartiteGraph(L, Rr)
+        else:
+            g = G.Graph(rng.choice([0, 1, 4, 9, 17]))
+        g.name = 'G'
+        state = dict(g=g, log=[type(g).__name__ + repr(tuple(canon(g)[1:3]))])
+        for step in range(rng.randint(3, 9)):
+            g = state['g']
+            cg = canon(g)
+            n, m = cg[1], len(cg[3])
+            if bip:
+                miss = cg[1] * cg[2] - m
+                op = rng.choice(['addedges', 'addedges', 'plantbiclique', 'add_edge', 'add_edge'])
+                args = {'addedges': [rng.choice([0, 1, 2, miss // 2, miss, miss + 1])],
+                        'plantbiclique': [rng.choice([0, 1, cg[1], cg[1] + 1]), rng.choice([0, 1, cg[2], cg[2] + 1])]}.get(op)
+            else:
+                miss = n * (n - 1) // 2 - m
+                op = rng.choice(['addedges', 'addedges', 'plantclique', 'splitedges', 'add_edge', 'remove_edge', 'raise', 'raise'])
+                args = {'addedges': [rng.choice([0, 1, 2, miss // 2, miss, miss + 1])], 'plantclique': [rng.choice([0, 1, 2, n // 2, n, n + 1])],
+                        'splitedges': [rng.choice([0, 1, 2, m // 2, m, m + 1])]}.get(op)
+            ctx.tally('history operation', op)
+            if args is not None:
+                c, holder = case_modify_live(G, B, op, state, args)
+                got, _rec = R.run(c, bias=rng.choice([0, 0, 0.5, 0.9]))
+                state['log'].append('%s %s -> %s' % (op, args, got[1] if got[0] == 'exc' else 'done'))
+                if got[0] == 'exc' and canon(state['g']) != holder.get('before'):
+                    ctx.violation('counterexample', 'option %s %r was refused (%s) but the graph was changed' % (op, args, got[1]),
+                                  dict(input=dict(history=state['log'], before=holder.get('before'), after=canon(state['g']))), True, site=op, cls='refused-but-changed')
+                continue
+            try:
+                if op == 'add_edge' and cg[1] and (cg[2] if bip else n > 1):
+                    u, v = (rng.randint(1, cg[1]), rng.randint(1, cg[2])) if bip else rng.sample(range(1, n + 1), 2)
+                    g.add_edge(u, v)
+                    state['log'].append('add_edge(%d,%d)' % (u, v))
+                elif op == 'remove_edge' and m:
+                    u, v = rng.choice(cg[3])
+                    g.remove_edge(v, u)
+                    state['log'].append('remove_edge(%d,%d)' % (v, u))
+                elif op == 'raise':
+                    k = rng.choice([2, 3, 5])
+                    g.update_vertex_number(n + k)
+                    state['log'].append('update_vertex_number(+%d)' % k)
+            except Exception as e:  # noqa
+                state['log'].append('%s raised %s' % (op, type(e).__name__))
+    R.flush()
+    # the same list of tokens given twice to the parser: it is not consumed, and the second graph has the same structure
+    for (ty, toks) in [('simple', ['gnm', '9', '12', 'addedges', '3', 'plantclique', '4']), ('bipartite', ['glrd', '5', '6', '2', 'addedges', '2']),
+                       ('dag', ['pyramid', '3']), ('bipartite', ['complete', '3', '2', 'addedges', '0'])]:
+        keep = list(toks)
+        outs = []
+        for _ in range(2):
+            rec = Rec(ctx.rng.getrandbits(48))
+            outs.append(with_random(rec, lambda: canon(A.make_graph_from_spec(ty, toks))))
+        ctx.count('history', ('tokens-twice', ty, tuple(keep)), True, sample=dict(graph_type=ty, spec=keep))
+        if toks != keep or outs[0][0] != outs[1][0] or (outs[0][0] == 'ok' and outs[0][1][:3] != outs[1][1][:3]):
+            ctx.violation('counterexample', 'the same specification given twice to make_graph_from_spec: the token list was changed or the second graph has another order',
+                          dict(input=dict(graph_type=ty, spec=keep, tokens_after=toks), implementation=[str(o)[:300] for o in outs]), True,
+                          site='parse', cls='tokens-consumed')
+
+
 def run(ctx):
     import_impl()
     import cnfgen.graphs as G
     import cnfgen.clitools.graph_build as B
     quick = ctx.tier == 'quick'
     R = Runner(ctx)
+    import cnfgen.clitools.graph_args as A
+    run_large(ctx, R, G, B, A, quick)        # the large cases first, as a corpus (notes/LARGE_STREAMS.md)
     run_samplers(ctx, R, G, B, quick)
     run_scripted(ctx, R, G, B)
-    import cnfgen.clitools.graph_args as A
     run_cli(ctx, G, A, quick)
     ctx.exhaustive = False
 
